@@ -73,7 +73,7 @@ def proof_obligations(prop):
     t0 = time.time()
     gen_err = None
     try:
-        import gen_fragments, gen_guards, gen_skel, gen_emit, gen_loops, gen_optimize, gen_loader_guards, gen_param_guards, gen_handler_guards, gen_geo, gen_render
+        import gen_fragments, gen_guards, gen_skel, gen_emit, gen_loops, gen_optimize, gen_loader_guards, gen_param_guards, gen_handler_guards, gen_geo, gen_render, gen_scenario
         gen_info = gen_fragments.regenerate()
         gen_info["guards"] = gen_guards.regenerate()     # scan guards translated from the current sources
         gen_info["skeleton"] = gen_skel.regenerate()     # control skeleton of the scan loops, from the current sources
@@ -85,6 +85,7 @@ def proof_obligations(prop):
         gen_info["param_guards"] = gen_param_guards.regenerate()     # parameter factories (keys, normalisations, defaults, test order), from the current sources
         gen_info["render"] = gen_render.regenerate()                 # the three JSON renderers: (key, member) pairs per object, reason switches, from the current sources
         gen_info["geo"] = gen_geo.regenerate()           # geographic filters: typed arithmetic of the walking radius, Euclidean rows, router pre-filter and row loop
+        gen_info["scenario"] = gen_scenario.regenerate() # scenario trip filter (both copies), connection-set construction, cache protocol + the six cache methods, summary accumulator, hour-table loops
     except Exception as e:   # translator failure is reported, never silently ignored
         gen_info = dict(error=str(e))
         gen_err = str(e)
@@ -171,6 +172,31 @@ def routes_batch(seed, tier, l2, driver, extra_profiles=None, tag="routes", size
             json.dump(recs, f)
         os.replace(mp + ".tmp", mp)
         return recs
+
+
+def l3_routes_batch(seed, tier, driver):
+    """the same kind of records as routes_batch, but ANSWERED BY THE REAL SERVER over HTTP on generated cache directories
+    (tools/l3batch.py: capnp files through the real loaders, the parameter factory, the geofilter in front of a router stub, the
+    JSON renderer); memoised per server binary / model / seed / tier like routes_batch.  Returns (records, error)."""
+    import l3, l3batch
+    binary, e3 = l3.build_server()
+    if e3:
+        return None, str(e3)
+    n3, nq3 = (30, 14) if tier == "quick" else (150, 20)
+    src = hashlib.sha256(b"".join(open(os.path.join(HERE, f), "rb").read() for f in ("gen.py", "l3batch.py", "l3.py"))).hexdigest()[:12]
+    key = hashlib.sha256(("l3routes|%s|%s|%d|%s|%d|%d|%s" % (binary, driver, seed, tier, n3, nq3, src)).encode()).hexdigest()[:24]
+    mp = memo_path(key)
+    with build.Lock("memo-" + key):
+        if os.path.exists(mp):
+            with open(mp) as f:
+                return json.load(f), None
+        more, _extras = l3batch.l3_batch(seed + 77, n3, nq3, driver, os.path.join(WORK, "scratch", "l3routes-%s" % key), binary=binary)
+        for r in more:
+            r["l3"] = True
+        with open(mp + ".tmp", "w") as f:
+            json.dump(more, f)
+        os.replace(mp + ".tmp", mp)
+        return more, None
 
 
 # ------------------------------------------------------------------------------------------------
